@@ -58,6 +58,26 @@ type xl struct {
 	extra   []string          // extra parameters (whole-function mode), in order
 	extraTy map[string]ltype
 	variadic string           // name of a variadic int parameter, if any
+	rename   map[*types.Var]string // canonical names by declaration position (canon.go)
+	subst    map[string]string     // while inlining a helper: parameter name -> translated argument
+	substTy  map[string]ltype
+}
+
+// canonical name of an identifier (renamed by declaration position when a table exists)
+func (x *xl) canon(id *ast.Ident) string {
+	if x.rename != nil {
+		if obj, ok := info.Uses[id].(*types.Var); ok {
+			if n, ok := x.rename[obj]; ok {
+				return n
+			}
+		}
+		if obj, ok := info.Defs[id].(*types.Var); ok {
+			if n, ok := x.rename[obj]; ok {
+				return n
+			}
+		}
+	}
+	return id.Name
 }
 
 func (x *xl) fail(n ast.Node, f string, a ...any) {
@@ -144,8 +164,12 @@ func (x *xl) expr(e ast.Expr) (string, ltype) {
 				return fmt.Sprintf("%d", val), t
 			}
 		}
-		if t, ok := x.locals[v.Name]; ok {
-			return v.Name, t
+		if sv, ok := x.subst[v.Name]; ok {
+			return sv, x.substTy[v.Name]
+		}
+		name := x.canon(v)
+		if t, ok := x.locals[name]; ok {
+			return name, t
 		}
 		tt := info.TypeOf(e)
 		if tt == nil {
@@ -155,7 +179,7 @@ func (x *xl) expr(e ast.Expr) (string, ltype) {
 		if !ok {
 			x.fail(e, "identifier %s has unsupported type %s", v.Name, tt)
 		}
-		return x.free(v.Name, t, e), t
+		return x.free(name, t, e), t
 	case *ast.UnaryExpr:
 		s, t := x.expr(v.X)
 		switch v.Op {
@@ -183,7 +207,7 @@ func (x *xl) expr(e ast.Expr) (string, ltype) {
 		// nil comparisons become boolean bindings
 		if id, ok := v.Y.(*ast.Ident); ok && id.Name == "nil" {
 			if lhs, ok := v.X.(*ast.Ident); ok {
-				nm := x.free(lhs.Name+"_nonnil", tBool, e)
+				nm := x.free(x.canon(lhs)+"_nonnil", tBool, e)
 				if v.Op == token.NEQ {
 					return nm, tBool
 				} else if v.Op == token.EQL {
@@ -293,6 +317,10 @@ func (x *xl) expr(e ast.Expr) (string, ltype) {
 				}
 			}
 		}
+		// calls to small pure helpers of the package whose body is a single `return <expr>`: inline
+		if s, t, ok := x.inlineHelper(v); ok {
+			return s, t
+		}
 		// calls to other translated pure functions
 		if id, ok := v.Fun.(*ast.Ident); ok {
 			if _, ok := wholeFuncs[id.Name]; ok {
@@ -309,6 +337,57 @@ func (x *xl) expr(e ast.Expr) (string, ltype) {
 	}
 	x.fail(e, "unsupported expression %T", e)
 	return "", 0
+}
+
+// inlineHelper translates a call to a package function/method whose body is `return <expr>`
+// by translating that expression with the parameters bound to the translated arguments.
+func (x *xl) inlineHelper(call *ast.CallExpr) (string, ltype, bool) {
+	var fd *ast.FuncDecl
+	switch f := call.Fun.(type) {
+	case *ast.Ident:
+		fd = funcs[f.Name]
+	case *ast.SelectorExpr:
+		if _, isRecv := recvPrefix(f.X); isRecv {
+			for _, rn := range []string{"stack", "Stack", "condition", "Condition", "nodeConfig"} {
+				if d := funcs[rn+"."+f.Sel.Name]; d != nil {
+					fd = d
+					break
+				}
+			}
+		}
+	}
+	if fd == nil || fd.Body == nil || len(fd.Body.List) != 1 {
+		return "", 0, false
+	}
+	rs, ok := fd.Body.List[0].(*ast.ReturnStmt)
+	if !ok || len(rs.Results) != 1 {
+		return "", 0, false
+	}
+	if _, known := wholeFuncs[fkey(fd)]; known {
+		return "", 0, false
+	}
+	var params []string
+	for _, p := range fd.Type.Params.List {
+		for _, n := range p.Names {
+			params = append(params, n.Name)
+		}
+	}
+	if len(params) != len(call.Args) {
+		return "", 0, false
+	}
+	saveS, saveT, saveR, saveRecv := x.subst, x.substTy, x.rename, x.recv
+	ns, nt := map[string]string{}, map[string]ltype{}
+	for i, a := range call.Args {
+		s, t := x.expr(a)
+		ns[params[i]], nt[params[i]] = s, t
+	}
+	x.subst, x.substTy, x.rename = ns, nt, nil
+	if fd.Recv != nil && len(fd.Recv.List[0].Names) > 0 {
+		x.recv = fd.Recv.List[0].Names[0].Name
+	}
+	s, t := x.expr(rs.Results[0])
+	x.subst, x.substTy, x.rename, x.recv = saveS, saveT, saveR, saveRecv
+	return "(" + s + ")", t, true
 }
 
 // ---------------------------------------------------------------------------
@@ -501,7 +580,7 @@ func (x *xl) assign(as *ast.AssignStmt, ind string) string {
 	var name string
 	switch l := as.Lhs[0].(type) {
 	case *ast.Ident:
-		name = l.Name
+		name = x.canon(l)
 	case *ast.StarExpr:
 		id, ok := l.X.(*ast.Ident)
 		if !ok || id.Name != x.recv {
@@ -628,11 +707,17 @@ func genFuncs() string {
 		for _, e := range x.extra {
 			params = append(params, fmt.Sprintf("(%s : %s)", e, x.extraTy[e]))
 		}
-		fmt.Fprintf(&b, "/-- from Go `%s` (%s) -/\ndef %s %s : %s :=\n%s%s\n\n", key, fset.Position(fd.Pos()), wholeFuncs[key],
+		fmt.Fprintf(&b, "/-- from Go `%s` (%s) -/\ndef %s %s : %s :=\n%s%s\n\n", key, posOf(fd), wholeFuncs[key],
 			strings.Join(params, " "), strings.Join(rts, " × "), pre, body)
 	}
 	b.WriteString("end Gen\n")
 	return b.String()
+}
+
+func posOf(n ast.Node) string {
+	p := fset.Position(n.Pos())
+	i := strings.LastIndex(p.Filename, "/")
+	return p.Filename[i+1:]
 }
 
 // ---------------------------------------------------------------------------
@@ -651,8 +736,7 @@ var condSites = []condSite{
 	{"stack.index", "if", 2, "index_negok"},
 	{"stack.index", "if", 3, "index_isover"},
 	{"stack.index", "if", 4, "index_fwdok"},
-	{"stack.swap", "if", 0, "swap_ok_i"},
-	{"stack.swap", "if", 1, "swap_ok_j"},
+	{"stack.swap", "exit", 0, "swap_reject"},
 	{"stack.replace", "if", 1, "replace_ok"},
 	{"stack.insert", "if", 0, "insert_full"},
 	{"stack.insert", "if", 1, "insert_append"},
@@ -677,7 +761,7 @@ func genConds() string {
 		if fd == nil {
 			die("function %s not found", cs.fn)
 		}
-		x := &xl{where: cs.fn + "/" + cs.name, useEnv: true, locals: map[string]ltype{}, extraTy: map[string]ltype{}}
+		x := &xl{where: cs.fn + "/" + cs.name, useEnv: true, locals: map[string]ltype{}, extraTy: map[string]ltype{}, rename: renameMap(cs.fn, fd)}
 		if fd.Recv != nil && len(fd.Recv.List[0].Names) > 0 {
 			x.recv = fd.Recv.List[0].Names[0].Name
 		}
@@ -685,6 +769,12 @@ func genConds() string {
 		initLet := ""
 		n := 0
 		var ifs []*ast.IfStmt
+		type branch struct {
+			pos  token.Pos
+			cond ast.Expr
+			init ast.Stmt
+		}
+		var branches []branch
 		ast.Inspect(fd.Body, func(nd ast.Node) bool {
 			if found != nil {
 				return false
@@ -693,10 +783,21 @@ func genConds() string {
 			case *ast.IfStmt:
 				if cs.kind == "if" {
 					ifs = append(ifs, v)
+					branches = append(branches, branch{v.Cond.Pos(), v.Cond, v.Init})
+				}
+			case *ast.SwitchStmt:
+				// a tagless switch is an if / else-if chain
+				if cs.kind == "if" && v.Tag == nil {
+					for _, c := range v.Body.List {
+						cc := c.(*ast.CaseClause)
+						if len(cc.List) == 1 {
+							branches = append(branches, branch{cc.List[0].Pos(), cc.List[0], v.Init})
+						}
+					}
 				}
 			case *ast.AssignStmt:
 				if strings.HasPrefix(cs.kind, "assign:") && len(v.Lhs) == 1 && len(v.Rhs) == 1 && v.Tok == token.ASSIGN {
-					if id, ok := v.Lhs[0].(*ast.Ident); ok && id.Name == strings.TrimPrefix(cs.kind, "assign:") {
+					if id, ok := v.Lhs[0].(*ast.Ident); ok && x.canon(id) == strings.TrimPrefix(cs.kind, "assign:") {
 						// skip assignments that are the init of an if (they are reached through the if)
 						if n == cs.k {
 							found = v.Rhs[0]
@@ -707,13 +808,42 @@ func genConds() string {
 			}
 			return true
 		})
-		if cs.kind == "if" {
-			sort.Slice(ifs, func(i, j int) bool { return ifs[i].Pos() < ifs[j].Pos() })
-			if cs.k < len(ifs) {
-				v := ifs[cs.k]
-				found = v.Cond
+		if cs.kind == "exit" {
+			// the disjunction of the conditions of every branch whose body just returns
+			var parts []string
+			ast.Inspect(fd.Body, func(nd ast.Node) bool {
+				v, ok := nd.(*ast.IfStmt)
+				if !ok || len(v.Body.List) != 1 {
+					return true
+				}
+				if rs, ok := v.Body.List[0].(*ast.ReturnStmt); !ok || len(rs.Results) != 0 {
+					return true
+				}
+				pre := ""
 				if v.Init != nil {
 					as, ok := v.Init.(*ast.AssignStmt)
+					if !ok {
+						die("%s: unsupported if-init at site %s", cs.fn, cs.name)
+					}
+					pre = strings.TrimSuffix(x.assign(as, ""), "\n") + "; "
+				}
+				c, _ := x.expr(v.Cond)
+				parts = append(parts, "("+pre+c+")")
+				return true
+			})
+			if len(parts) == 0 {
+				die("%s: no early-return branch for site %s", cs.fn, cs.name)
+			}
+			fmt.Fprintf(&b, "/-- from Go `%s` (%s): some early-return guard fires -/\ndef %s (env : Env) : Bool := %s\n\n", cs.fn, posOf(fd), cs.name, strings.Join(parts, " || "))
+			continue
+		}
+		if cs.kind == "if" {
+			sort.Slice(branches, func(i, j int) bool { return branches[i].pos < branches[j].pos })
+			if cs.k < len(branches) {
+				v := branches[cs.k]
+				found = v.cond
+				if v.init != nil {
+					as, ok := v.init.(*ast.AssignStmt)
 					if !ok {
 						die("%s: unsupported if-init at site %s", cs.fn, cs.name)
 					}
@@ -721,6 +851,7 @@ func genConds() string {
 				}
 			}
 		}
+		_ = ifs
 		if found == nil {
 			die("%s: site %s #%d not found", cs.fn, cs.kind, cs.k)
 		}
@@ -729,13 +860,13 @@ func genConds() string {
 			s = "(" + strings.TrimSuffix(initLet, "\n") + "; " + s + ")"
 		}
 		if strings.HasPrefix(cs.kind, "assign:") && t == tInt {
-			fmt.Fprintf(&b, "/-- from Go `%s` (%s) -/\ndef %s (env : Env) : Int := %s\n\n", cs.fn, fset.Position(found.Pos()), cs.name, s)
+			fmt.Fprintf(&b, "/-- from Go `%s` (%s) -/\ndef %s (env : Env) : Int := %s\n\n", cs.fn, posOf(found), cs.name, s)
 			continue
 		}
 		if t != tBool {
 			die("%s: site %s is not boolean", cs.fn, cs.name)
 		}
-		fmt.Fprintf(&b, "/-- from Go `%s` (%s) -/\ndef %s (env : Env) : Bool := %s\n\n", cs.fn, fset.Position(found.Pos()), cs.name, s)
+		fmt.Fprintf(&b, "/-- from Go `%s` (%s) -/\ndef %s (env : Env) : Bool := %s\n\n", cs.fn, posOf(found), cs.name, s)
 	}
 	b.WriteString("end Gen\n")
 	return b.String()
